@@ -164,9 +164,15 @@ impl TypedReprRef<'_> {
         let mut bytes = if negate {
             match self {
                 RefSmall(x) => {
+                    // as in the large case the length depends on (magnitude - 1)
                     let bytes = (!x + 1).to_le_bytes();
-                    let skip_bytes = x.leading_zeros() as usize / 8;
-                    bytes[..DWORD_BYTES - skip_bytes].into()
+                    let leading_zeros = (x - 1).leading_zeros();
+                    let skip_bytes = leading_zeros as usize / 8;
+                    let mut bytes: Vec<u8> = bytes[..DWORD_BYTES - skip_bytes].into();
+                    if leading_zeros % 8 == 0 {
+                        bytes.push(0xff);
+                    }
+                    return bytes;
                 }
                 RefLarge(words) => {
                     let mut buffer = Buffer::from(words);
@@ -218,9 +224,15 @@ impl TypedReprRef<'_> {
         let mut bytes = if negate {
             match self {
                 RefSmall(x) => {
+                    // as in the large case the length depends on (magnitude - 1)
                     let bytes = (!x + 1).to_be_bytes();
-                    let skip_bytes = x.leading_zeros() as usize / 8;
-                    bytes[skip_bytes..].into()
+                    let leading_zeros = (x - 1).leading_zeros();
+                    let skip_bytes = leading_zeros as usize / 8;
+                    let mut bytes: Vec<u8> = bytes[skip_bytes..].into();
+                    if leading_zeros % 8 == 0 {
+                        bytes.insert(0, 0xff);
+                    }
+                    return bytes;
                 }
                 RefLarge(words) => {
                     let mut buffer = Buffer::from(words);
